@@ -30,7 +30,7 @@ ASSUMPTIONS = [
 ]
 COMPONENTS = {"real": ["pyxel.load / configuration builders", "Geometry / Environment / Characteristics / APDCharacteristics validation", "Readout and ParameterValues expression evaluation", "Observation sweep path"], "stub": []}
 BUDGET = {"quick": {"n": 960, "wall": 100, "determinism": 4}, "thorough": {"n": 24000, "wall": 1500, "determinism": 12}}
-REQUIRED_REACH = ["kind:twin", "kind:count", "kind:range", "twin:exposure", "twin:observation", "numpy_expression", "count:no-mode", "count:two-modes", "count:no-detector", "count:two-detectors", "path:sweep_rejects", "anchor_checked", "class:boundary", "class:beyond", "class:far", "class:sign"] + [f"type:{t}" for t in world.DET_TYPES]
+REQUIRED_REACH = ["kind:derived", "derived_compared", "derived_refused_by_constructor", "derived_path:sweep", "derived_path:attribute", "derived_path:key", "derived:common_voltage", "kind:twin", "kind:count", "kind:range", "twin:exposure", "twin:observation", "numpy_expression", "count:no-mode", "count:two-modes", "count:no-detector", "count:two-detectors", "path:sweep_rejects", "anchor_checked", "class:boundary", "class:beyond", "class:far", "class:sign"] + [f"type:{t}" for t in world.DET_TYPES]
 
 # field -> (section, low, high, integer?)  -- ranges only used to *generate* interesting values
 FIELDS = {
@@ -45,8 +45,9 @@ FIELDS = {
     "pre_amplification": ("characteristics", 0.0, 10000.0, False),
     "full_well_capacity": ("characteristics", 0.0, 1e7, False),
     "adc_bit_resolution": ("characteristics", 4, 64, True),
+    "wavelength": ("environment", 0.0, 1.0e5, False),
 }
-SPEC_KEY = {"row": "row", "col": "col", "total_thickness": "total_thickness", "pixel_vert_size": "pixel_vert_size", "pixel_horz_size": "pixel_horz_size", "temperature": "temperature", "quantum_efficiency": "qe", "charge_to_volt_conversion": "charge_to_volt_conversion", "pre_amplification": "pre_amplification", "full_well_capacity": "full_well_capacity", "adc_bit_resolution": "adc_bit_resolution"}
+SPEC_KEY = {"wavelength": "wavelength", "row": "row", "col": "col", "total_thickness": "total_thickness", "pixel_vert_size": "pixel_vert_size", "pixel_horz_size": "pixel_horz_size", "temperature": "temperature", "quantum_efficiency": "qe", "charge_to_volt_conversion": "charge_to_volt_conversion", "pre_amplification": "pre_amplification", "full_well_capacity": "full_well_capacity", "adc_bit_resolution": "adc_bit_resolution"}
 CLASSES = ["inside", "boundary", "beyond", "far", "sign"]
 
 
@@ -88,9 +89,26 @@ def generate(rng, tier):
     kind = rng.choice(["twin", "twin", "count", "range", "range", "range"])
     det = world.gen_detector(rng)
     scn = {"kind": kind, "detector": det, "yaml_seed": rng.randrange(2**31)}
+    if kind == "range" and rng.random() < 0.12:
+        # bias-derived quantities of an APD after one of the three bias inputs was changed on the live detector
+        det["type"] = "APD"
+        det["avalanche_gain"] = rng.choice([2.0, 10.0, 50.0])
+        det["pixel_reset_voltage"] = rng.choice([5.0, 8.0, 12.0])
+        f = rng.choice(["avalanche_gain", "pixel_reset_voltage", "common_voltage", "common_voltage"])
+        if f == "avalanche_gain":
+            v = rng.choice([1.0, 1.5, 20.0, 400.0, 1000.0, 0.5, 2000.0])
+        elif f == "common_voltage":
+            v = rng.choice([-3.0, 0.0, 1.0, det["pixel_reset_voltage"] - 0.5, det["pixel_reset_voltage"] - 1.0, det["pixel_reset_voltage"] - 2.0, -20.0])
+        else:
+            v = rng.choice([3.0, 6.0, 9.0, 14.0, 30.0])
+        scn.update({"kind": "derived", "field": f, "value": v, "path": rng.choice(["attribute", "key", "sweep"]), "warm": rng.random() < 0.5})
+        scn["pipeline"] = {"charge_collection": [{"name": "p", "func": world.PROBE, "enabled": True, "arguments": {"tag": "p", "level": 1, "write": ["pixel"]}}], "charge_measurement": [{"name": "simple_measurement", "func": "pyxel.models.charge_measurement.simple_measurement", "enabled": True, "arguments": {}}]}
+        return scn
     if kind == "range":
         fields = [f for f in FIELDS if not (det["type"] == "APD" and f in ("charge_to_volt_conversion", "pre_amplification"))]
         scn["field"] = rng.choice(fields)
+        if scn["field"] == "wavelength":
+            det["wavelength"] = rng.choice([450.0, 600.0, 2200.0])
         scn["cls"] = rng.choice(CLASSES)
         scn["value"] = value_for(rng, scn["field"], scn["cls"])
         scn["pipeline"] = {"charge_collection": [{"name": "p", "func": world.PROBE, "enabled": True, "arguments": {"tag": "p", "level": 1, "write": ["pixel"]}}]}
@@ -119,7 +137,7 @@ def generate(rng, tier):
 
 
 def shrink(scn):
-    if scn["kind"] == "range":
+    if scn["kind"] in ("range", "derived"):
         return
     for g, ms in scn["pipeline"].items():
         for i in range(len(ms or [])):
@@ -187,6 +205,108 @@ def compare_settings(scn, cfg, viol):
             viol.append({"clause": "C12.settings", "signature": "C12.with_dask", "detail": None})
     if cfg.running_mode.pipeline_seed != m.get("pipeline_seed"):
         viol.append({"clause": "C12.settings", "signature": "C12.pipeline_seed", "detail": {"document": m.get("pipeline_seed"), "loaded": cfg.running_mode.pipeline_seed}})
+
+
+DERIVED = ("avalanche_gain", "pixel_reset_voltage", "common_voltage", "avalanche_bias", "node_capacitance", "charge_to_volt_conversion", "system_gain")
+
+
+def _derived_of(ch):
+    out = {}
+    for n in DERIVED:
+        try:
+            out[n] = float(getattr(ch, n))
+        except Exception as exc:  # noqa: BLE001
+            out[n] = "raises:" + type(exc).__name__
+    return out
+
+
+def _signal_of(det, pipe_spec):
+    import pyxel
+    from pyxel.exposure import Exposure
+
+    try:
+        tree = pyxel.run_mode(mode=Exposure(readout=world.build_readout({"times": [1.0]})), detector=det, pipeline=world.build_pipeline(pipe_spec), with_inherited_coords=True)
+        return np.asarray(tree["/bucket/signal"].values, dtype=float), None
+    except Exception as exc:  # noqa: BLE001
+        return None, exc
+
+
+def _derived(scn, viol, stats, h):
+    """An APD whose bias input was changed afterwards equals, in every bias-derived quantity and in what it simulates,
+    the APD constructed with that input; what the constructor refuses is not simulated either."""
+    import pyxel
+    from pyxel.observation import Observation, ParameterValues
+    from pyxel.pipelines import Processor
+
+    spec, f, x, path = scn["detector"], scn["field"], scn["value"], scn["path"]
+    stats["derived:" + f] = 1
+    stats["derived_path:" + path] = 1
+    det = world.build_detector(spec)
+    ch = det.characteristics
+    if scn.get("warm"):
+        _derived_of(ch)  # the quantities were already asked for once before the change
+        stats["derived_read_before_change"] = 1
+    common0 = float(ch.common_voltage)
+    tw = dict(spec)
+    if f == "avalanche_gain":
+        tw["avalanche_gain"] = x
+    elif f == "common_voltage":
+        tw.pop("avalanche_gain")
+        tw["common_voltage"] = x
+    else:
+        tw.pop("avalanche_gain")
+        tw["common_voltage"] = common0
+        tw["pixel_reset_voltage"] = x
+    try:
+        twin = world.build_detector(tw)
+        twin_exc = None
+    except Exception as exc:  # noqa: BLE001
+        twin, twin_exc = None, exc
+    feat = f"{f}+{path}"
+    key = f"detector.characteristics.{f}"
+    got_sig, run_exc, set_exc = None, None, None
+    if path == "sweep":
+        probes.reset()
+        try:
+            mode = Observation(parameters=[ParameterValues(key=key, values=[x])], readout=world.build_readout({"times": [1.0]}))
+            tree = pyxel.run_mode(mode=mode, detector=det, pipeline=world.build_pipeline(scn["pipeline"]), with_inherited_coords=True)
+            got_sig = np.asarray(tree["/bucket/signal"].values, dtype=float).reshape(-1, spec["row"], spec["col"])[-1:]
+        except Exception as exc:  # noqa: BLE001
+            run_exc = exc
+    else:
+        try:
+            if path == "attribute":
+                setattr(ch, f, x)
+            else:
+                Processor(detector=det, pipeline=world.build_pipeline(scn["pipeline"])).set(key, x)
+        except Exception as exc:  # noqa: BLE001
+            set_exc = exc
+        if set_exc is None:
+            dv = _derived_of(ch)
+            got_sig, run_exc = _signal_of(det, scn["pipeline"])
+    refused = set_exc is not None or run_exc is not None
+    if twin is None:
+        stats["derived_refused_by_constructor"] = 1
+        if not refused:
+            viol.append({"clause": "C12.limits", "signature": f"C12.simulated-what-the-constructor-refuses@{feat}", "detail": {"value": x, "constructor": repr(twin_exc)[:200]}})
+    else:
+        want_sig, want_exc = _signal_of(twin, scn["pipeline"])
+        if want_exc is not None:
+            stats["derived_refused_at_run"] = 1
+            if not refused:
+                viol.append({"clause": "C12.limits", "signature": f"C12.simulated-what-a-fresh-detector-refuses@{feat}", "detail": {"value": x, "fresh": repr(want_exc)[:200]}})
+        elif refused:
+            viol.append({"clause": "C12.limits", "signature": f"C12.paths-disagree@{feat}", "detail": {"value": x, "refused_with": repr(set_exc or run_exc)[:200]}})
+        else:
+            stats["derived_compared"] = 1
+            if path != "sweep":
+                tv = _derived_of(twin.characteristics)
+                diff = [n for n in DERIVED if (dv[n] != tv[n]) and not (isinstance(dv[n], float) and isinstance(tv[n], float) and abs(dv[n] - tv[n]) <= 1e-12 * max(1.0, abs(tv[n])))]
+                if diff:
+                    viol.append({"clause": "C12.settings", "signature": f"C12.derived-quantity-differs@{feat}", "detail": {"value": x, "differing": {n: [dv[n], tv[n]] for n in diff}}})
+            if got_sig is not None and want_sig is not None and not np.allclose(got_sig.reshape(want_sig.shape) if got_sig.size == want_sig.size else got_sig, want_sig, rtol=1e-12, atol=0.0):
+                viol.append({"clause": "C12.twins", "signature": f"C12.changed-detector-simulates-differently@{feat}", "detail": {"value": x, "signal_changed": float(np.ravel(got_sig)[0]), "signal_fresh": float(np.ravel(want_sig)[0])}})
+    h.update(repr((f, x, path, refused, twin is None)).encode())
 
 
 def execute(scn):
@@ -269,6 +389,9 @@ def execute(scn):
                         elif obs.tree_digest(ta) != obs.tree_digest(tb):
                             viol.append({"clause": "C12.twins", "signature": f"C12.twins-result@{scn['mode']['kind']}", "detail": "results of the YAML-built and the Python-built objects differ"})
                     h.update((obs.hist_digest(ha) + obs.tree_digest(ta)).encode())
+        elif kind == "derived":
+            nontrivial = True
+            _derived(scn, viol, stats, h)
         else:  # range
             field, v, cls = scn["field"], scn["value"], scn["cls"]
             stats["class:" + cls] = 1
